@@ -30,15 +30,37 @@ Theorem c03_rejects_unverified : forall c,
 Proof. exact chain_rejects_unverified. Qed.
 Print Assumptions c03_rejects_unverified.
 
-(* "self-signed": proved for the code that checks the certificate signature ... *)
-Theorem c03_self_signed_when_checked : forall chain k,
-  checks_self_sig = true -> pubkey_from_chain chain = Ok k ->
-  exists c, chain = [c] /\ c_self_signed c = true.
-Proof. exact accepted_is_self_signed_when_checked. Qed.
-Print Assumptions c03_self_signed_when_checked.
+(* PubKeyFromCertChain checks the certificate's own signature on this tree
+   (regenerated from crypto/tls/tls.go; x509 Verify alone would not) *)
+Theorem c03_self_signature_checked_on_this_tree : checks_self_sig = true.
+Proof. reflexivity. Qed.
+Print Assumptions c03_self_signature_checked_on_this_tree.
 
-(* ... and refuted for the code that relies on x509 Verify alone (which accepts
-   a certificate found in its root pool without checking its signature) *)
+(* full statement: an accepted chain is a single SELF-SIGNED certificate whose
+   first key extension is a valid key-binding signature by the returned key *)
+Theorem c03_accepted_chain : forall chain k,
+  pubkey_from_chain chain = Ok k ->
+  exists c e, chain = [c] /\ c_self_signed c = true /\ c_verify_ok c = true /\
+    find_key_ext (c_exts c) = Some e /\
+    e_value e = SignedKey (PkOf k) (SigBy k (binding_msg (c_key c))).
+Proof.
+  intros chain k H. apply chain_accept_iff in H as (c & e & -> & Hv & _ & Hf & He & Hs).
+  exists c, e. pose proof (Hs c03_self_signature_checked_on_this_tree). repeat split; auto.
+Qed.
+Print Assumptions c03_accepted_chain.
+
+Theorem c03_rejects_not_self_signed : forall c,
+  c_self_signed c = false -> is_err (pubkey_from_chain [c]) = true.
+Proof.
+  intros c H. destruct (pubkey_from_chain [c]) as [k| |] eqn:E; [|reflexivity|].
+  - apply c03_accepted_chain in E as (c' & e & Ec & Hs & _). inversion Ec; subst. congruence.
+  - exfalso. exact (chain_total _ E).
+Qed.
+Print Assumptions c03_rejects_not_self_signed.
+
+(* sensitivity: for code that relies on x509 Verify alone (which accepts a
+   certificate found in its root pool without checking its signature; the
+   behaviour before /repo 1afc499) the clause is false *)
 Theorem c03_self_signed_refuted_when_unchecked :
   checks_self_sig = false ->
   pubkey_from_chain [resigned_cert] = Ok 3%nat /\ c_self_signed resigned_cert = false.
@@ -77,8 +99,11 @@ Theorem c03_handshake : forall expected a id,
   exists c e k, a_raw a = [RawCert c] /\ id = id_of k /\
     c_verify_ok c = true /\ find_key_ext (c_exts c) = Some e /\
     e_value e = SignedKey (PkOf k) (SigBy k (binding_msg (c_key c))) /\
-    (expected = 0 \/ id = expected) /\ (checks_self_sig = true -> c_self_signed c = true).
-Proof. exact handshake_ok. Qed.
+    (expected = 0 \/ id = expected) /\ c_self_signed c = true.
+Proof.
+  intros expected a id H. apply handshake_ok in H as (Hk & c & e & k & H1 & H2 & H3 & H4 & H5 & H6 & H7).
+  split; [exact Hk|]. exists c, e, k. pose proof (H7 c03_self_signature_checked_on_this_tree). repeat split; auto.
+Qed.
 Print Assumptions c03_handshake.
 
 (* history form: in any sequence of connection attempts every established link
